@@ -198,6 +198,97 @@ theorem rests_glob (ast : List Atom) : ∀ res, cAtoms ast = some res → noMult
           rw [hs, ← List.append_assoc, List.take_append_drop]
     · simp at h
 
+
+/-! ### `rfind`'s byte-wise step to the next char boundary = the next character index -/
+
+theorem utf8Len_append (a b : List Char) : utf8Len (a ++ b) = utf8Len a + utf8Len b := by
+  simp [utf8Len]
+
+theorem nextBoundaryFrom_spec (mid : List Char) :
+    ∀ (pre rest : List Char),
+      nextBoundaryFrom pre.length (utf8Len pre) (utf8Len (pre ++ mid)) (mid ++ rest) =
+        match rest with
+        | [] => none
+        | c :: _ => some (pre.length + mid.length + 1, utf8Len (pre ++ mid) + c.utf8Size) := by
+  induction mid with
+  | nil =>
+    intro pre rest
+    cases rest with
+    | nil => simp [nextBoundaryFrom]
+    | cons c t =>
+      have := Char.utf8Size_pos c
+      simp only [List.append_nil, List.nil_append, nextBoundaryFrom, List.length_nil, Nat.add_zero]
+      rw [if_pos (by omega)]
+  | cons m mid' ih =>
+    intro pre rest
+    have hlen : utf8Len (pre ++ m :: mid') = utf8Len pre + m.utf8Size + utf8Len mid' := by
+      simp [utf8Len]; omega
+    have hnot : ¬ utf8Len (pre ++ m :: mid') < utf8Len pre + m.utf8Size := by omega
+    simp only [List.cons_append, nextBoundaryFrom]
+    rw [if_neg hnot]
+    have := ih (pre ++ [m]) rest
+    have e1 : (pre ++ [m]).length = pre.length + 1 := by simp
+    have e2 : utf8Len (pre ++ [m]) = utf8Len pre + m.utf8Size := by simp [utf8Len]
+    have e3 : pre ++ [m] ++ mid' = pre ++ m :: mid' := by simp
+    rw [e1, e2, e3] at this
+    rw [this]
+    cases rest with
+    | nil => rfl
+    | cons c t => simp; omega
+
+theorem nextBoundary_index (text : List Char) (i : Nat) :
+    (nextBoundary text (byteOffset text i)).map (·.1) = if i + 1 ≤ text.length then some (i + 1) else none := by
+  unfold nextBoundary byteOffset
+  have := nextBoundaryFrom_spec (text.take i) [] (text.drop i)
+  simp only [List.length_nil, List.nil_append, List.take_append_drop] at this
+  have h0 : utf8Len ([] : List Char) = 0 := rfl
+  rw [h0] at this
+  rw [this]
+  by_cases h : i + 1 ≤ text.length
+  · rw [if_pos h]
+    have hne : text.drop i ≠ [] := by
+      intro e
+      have := congrArg List.length e
+      simp at this; omega
+    cases hd : text.drop i with
+    | nil => exact absurd hd hne
+    | cons c t =>
+      simp only [Option.map_some, List.length_take]
+      congr 1
+      omega
+  · rw [if_neg h]
+    have : text.drop i = [] := by
+      apply List.drop_eq_nil_of_le; omega
+    rw [this]
+    rfl
+
+theorem rfindLoop_unfold (g : Bool) (re : List ReAtom) (text : List Char) (fuel : Nat) (cur : Nat × Nat) :
+    rfindLoop g re text (fuel + 1) cur =
+      if cur.1 + 1 ≤ text.length then
+        (match findAt g re text (cur.1 + 1) with
+         | some r => rfindLoop g re text fuel r
+         | none => cur)
+      else cur := by
+  have h := nextBoundary_index text cur.1
+  simp only [rfindLoop]
+  cases hn : nextBoundary text (byteOffset text cur.1) with
+  | none =>
+    rw [hn] at h
+    by_cases hle : cur.1 + 1 ≤ text.length
+    · rw [if_pos hle] at h; simp at h
+    · rw [if_neg hle]
+  | some ib =>
+    obtain ⟨i, b⟩ := ib
+    rw [hn] at h
+    by_cases hle : cur.1 + 1 ≤ text.length
+    · rw [if_pos hle] at h
+      simp only [Option.map_some, Option.some.injEq] at h
+      subst h
+      rw [if_pos hle]
+      simp only []
+      cases findAt g re text (cur.1 + 1) <;> rfl
+    · rw [if_neg hle] at h; simp at h
+
 /-! ### `findFrom` -/
 
 theorem findFrom_spec (g : Bool) (n : Nat) (re : List ReAtom) :
